@@ -1,1 +1,7 @@
 import XPathV.Theorems.C11
+#print axioms XPathV.Theorems.C11.dedup_subset
+#print axioms XPathV.Theorems.C11.dedup_keys_fresh
+#print axioms XPathV.Theorems.C11.dedup_complete
+#print axioms XPathV.Theorems.C11.nodup_of_map
+#print axioms XPathV.Theorems.C11.C11_union
+#print axioms XPathV.Theorems.C11.sequence_is_union
